@@ -839,10 +839,15 @@ def role_text(fn, expr, depth=6, params_as=None):
                 out |= {a.arg for a in c.args.args}
         return out
 
+    params = set()
+    if fn is not None and hasattr(fn, "args"):
+        a_ = fn.args
+        params = {x.arg for x in a_.posonlyargs + a_.args + a_.kwonlyargs} | ({a_.vararg.arg} if a_.vararg else set()) | ({a_.kwarg.arg} if a_.kwarg else set())
+
     def inline(n, d, stack):
         if fn is None or d <= 0:
             return n
-        shadow = bound_in_comps(n)
+        shadow = bound_in_comps(n) | params  # a re-assigned parameter also has its incoming value: never inline it
 
         class T(ast.NodeTransformer):
             def visit_Name(self, x):
